@@ -381,7 +381,14 @@ fn run_literal(t: &Trace) -> Res {
     }
 }
 
+/// `execute_inner` under a guard: a panic of the code under test *outside* a client call (while the
+/// harness computes its one-shot reference for the input, say) is a violation like any other panic,
+/// not a crash of the harness.
 pub fn execute(t: &Trace, st: &mut Stats, record: bool) -> Outcome {
+    guarded_execute(execute_inner, t, st, record)
+}
+
+fn execute_inner(t: &Trace, st: &mut Stats, record: bool) -> Outcome {
     let char_safe = matches!(t.surface.as_str(), "strip_str" | "stream_write_fmt_vec" | "auto_never_write_fmt_box");
     let ends = chunk_ends(t, char_safe);
     let mut out = Outcome::default();
